@@ -1,0 +1,4 @@
+//! Verification hooks. Only compiled with the `verif` feature. Nothing in here
+//! changes the behavior of the rest of the crate.
+
+pub use crate::smallvec::{SmallVec, SmallVecIntoIter};
